@@ -1,10 +1,6 @@
 // replay for property C08, harness population::elitism::verif_kani_proofs::c08_elitism_add_all_k1_n2_max1 (crate rosomaxa, proof module elitism)
 // failed: assertion failed: le(pop.individuals[0].f, seen[j].f) @ elitism_proofs.rs:56
 // run: /verif/check --replay /verif/replays/C08/c08_elitism_add_all_k1_n2_max1.rs
-/// Test generated for harness `population::elitism::verif_kani_proofs::c08_elitism_add_all_k1_n2_max1` 
-///
-/// Check for `assertion`: "assertion failed: le(pop.individuals[0].f, seen[j].f)"
-
 #[test]
 fn kani_concrete_playback_c08_elitism_add_all_k1_n2_max1_4748773536628154976() {
     let concrete_vals: Vec<Vec<u8>> = vec![
@@ -26,10 +22,6 @@ fn kani_concrete_playback_c08_elitism_add_all_k1_n2_max1_4748773536628154976() {
     kani::concrete_playback_run(concrete_vals, c08_elitism_add_all_k1_n2_max1);
 }
 
-/// Test generated for harness `population::elitism::verif_kani_proofs::c08_elitism_add_all_k1_n2_max1` 
-///
-/// Check for `cover`: "improved-by-batch"
-
 #[test]
 fn kani_concrete_playback_c08_elitism_add_all_k1_n2_max1_16175902611978321038() {
     let concrete_vals: Vec<Vec<u8>> = vec![
@@ -50,10 +42,6 @@ fn kani_concrete_playback_c08_elitism_add_all_k1_n2_max1_16175902611978321038() 
     ];
     kani::concrete_playback_run(concrete_vals, c08_elitism_add_all_k1_n2_max1);
 }
-
-/// Test generated for harness `population::elitism::verif_kani_proofs::c08_elitism_add_all_k1_n2_max1` 
-///
-/// Check for `cover`: "batch-not-better"
 
 #[test]
 fn kani_concrete_playback_c08_elitism_add_all_k1_n2_max1_4782909486390490407() {
